@@ -8,6 +8,7 @@ configuration.
 """
 
 import hashlib
+import os
 import numpy as np
 from pathlib import Path
 
@@ -33,8 +34,14 @@ class GreensFunctionCache:
         self.cache_dir = Path(cache_dir)
         self.cache_dir.mkdir(parents=True, exist_ok=True)
 
-    def _compute_key(self, z, profiles, domain, modes, meas_pt, halo, precision):
-        """Compute SHA-256 hash from solver inputs."""
+    def _compute_key(
+        self, z, profiles, domain, modes, meas_pt, halo, precision, extra=None
+    ):
+        """Compute SHA-256 hash from solver inputs.
+
+        ``extra`` carries the remaining result-determining solver arguments
+        (levels, surface-flux shape, analytic flag, background concentration).
+        """
         h = hashlib.sha256()
         h.update(np.asarray(z).tobytes())
         for arr in profiles:
@@ -44,9 +51,15 @@ class GreensFunctionCache:
         h.update(np.asarray(meas_pt).tobytes())
         h.update(str(halo).encode())
         h.update(precision.encode())
+        if extra is not None:
+            levels, shape, analytic, srf_bg_conc = extra
+            h.update(np.asarray(levels, dtype=np.int64).tobytes())
+            h.update(str(tuple(int(n) for n in shape)).encode())
+            h.update(str(bool(analytic)).encode())
+            h.update(np.float64(srf_bg_conc).tobytes())
         return h.hexdigest()
 
-    def get(self, z, profiles, domain, modes, meas_pt, halo, precision):
+    def get(self, z, profiles, domain, modes, meas_pt, halo, precision, extra=None):
         """Look up cached result.
 
         Returns
@@ -54,24 +67,47 @@ class GreensFunctionCache:
         tuple or None
             (grid, conc, flx) if cached, None on miss.
         """
-        key = self._compute_key(z, profiles, domain, modes, meas_pt, halo, precision)
+        key = self._compute_key(
+            z, profiles, domain, modes, meas_pt, halo, precision, extra
+        )
         path = self.cache_dir / f"{key}.npz"
         if path.exists():
+            try:
+                with np.load(path) as data:
+                    grid = (data["X"], data["Y"], data["Z"])
+                    result = grid, data["conc"], data["flx"]
+            except Exception as e:
+                # truncated or corrupt entry (e.g. interrupted run): treat as a miss
+                logger.warning("Ignoring unreadable cache entry %s: %s", key[:12], e)
+                return None
             logger.debug("Cache hit: %s", key[:12])
-            data = np.load(path)
-            grid = (data["X"], data["Y"], data["Z"])
-            return grid, data["conc"], data["flx"]
+            return result
         logger.debug("Cache miss: %s", key[:12])
         return None
 
     def put(
-        self, z, profiles, domain, modes, meas_pt, halo, precision, grid, conc, flx
+        self,
+        z,
+        profiles,
+        domain,
+        modes,
+        meas_pt,
+        halo,
+        precision,
+        grid,
+        conc,
+        flx,
+        extra=None,
     ):
-        """Store a result in the cache."""
-        key = self._compute_key(z, profiles, domain, modes, meas_pt, halo, precision)
+        """Store a result in the cache (written to a temporary file, then renamed)."""
+        key = self._compute_key(
+            z, profiles, domain, modes, meas_pt, halo, precision, extra
+        )
         path = self.cache_dir / f"{key}.npz"
+        tmp = self.cache_dir / f"{key}.{os.getpid()}.tmp.npz"
         X, Y, Z = grid
-        np.savez(path, X=X, Y=Y, Z=Z, conc=conc, flx=flx)
+        np.savez(tmp, X=X, Y=Y, Z=Z, conc=conc, flx=flx)
+        os.replace(tmp, path)
         logger.debug("Cached: %s", key[:12])
 
     def clear(self):
